@@ -71,7 +71,10 @@ def findKey (acc : Acc) (b : Nat) : Option Nat :=
 def addBin (acc : Acc) (b p : Nat) : Acc :=
   match findKey acc b with
   | some i => ⟨acc.entries.modify i (fun e => (e.1, e.2 ++ [p])), acc.dense⟩
-  | none => ⟨acc.entries.push (b, [p]), acc.dense && b == acc.entries.size⟩
+  | none =>
+    -- (the flag is computed before the push so that the compiled push is in place)
+    let d := acc.dense && b == acc.entries.size
+    ⟨acc.entries.push (b, [p]), d⟩
 
 def addBins (p : Nat) : List Nat → Acc → Acc
   | [], acc => acc
@@ -148,8 +151,8 @@ def components (near : Nat → Nat → Bool) : Nat → List Nat → List (List N
     match pts.getLast? with
     | none => out
     | some p =>
-      components near fuel (grow near pts.length 0 (pts.dropLast, [p])).1
-        (out ++ [(grow near pts.length 0 (pts.dropLast, [p])).2])
+      let s := grow near pts.length 0 (pts.dropLast, [p])
+      components near fuel s.1 (out ++ [s.2])
 
 /-- `largest_cluster(points, max_distance)`:
 `clusters.into_iter().max_by_key(|c| c.len()).unwrap_or_default()`. -/
@@ -163,11 +166,11 @@ def largestCluster (near : Nat → Nat → Bool) (pts : List Nat) : List Nat :=
 def bestCluster (ctx : Ctx) : Nat → Acc → List Nat → Outcome Unit (Acc × List Nat)
   | 0, _, _ => .panic "fuel:best_cluster"
   | fuel + 1, acc, prev =>
-    if (largestCluster ctx.near (mostPopular acc)).length ≤ prev.length then .ok (acc, prev)
+    let best := largestCluster ctx.near (mostPopular acc)
+    if best.length ≤ prev.length then .ok (acc, prev)
     else
-      match removeAll ctx (largestCluster ctx.near (mostPopular acc)) acc with
-      | .ok acc' =>
-        bestCluster ctx fuel (addAll ctx prev acc') (largestCluster ctx.near (mostPopular acc))
+      match removeAll ctx best acc with
+      | .ok acc' => bestCluster ctx fuel (addAll ctx prev acc') best
       | .err e => .err e
       | .panic s => .panic s
 
